@@ -438,7 +438,36 @@ class Check:
                 vec.append(int(v))
         return vec
 
-    def replay_model(s, h, ob, vec):
+    def exact_run_fails(s, h, ob, vec, order):
+        """Re-run the executor on the concrete model in exact rational arithmetic (opaque functions evaluated where
+        their arguments are concrete): does the same assertion fail there?  Used only to interpret tiny native
+        residuals (a violation whose witness is inherently small, e.g. a determinant of 2^-60 treated as zero)."""
+        try:
+            fn = s.fns[h]
+            o = s.opts(h)
+            m = Machine(s.fns, 'REAL', feasible=None, fuel=o.get('fuel', 400000))
+            conc = [Fraction(v) if lt in mir.FLOATS else v for v, (nm, lt) in zip(vec, order)]
+            m.concrete_opaque = True
+            m.run(h, split_inputs(fn, conc))
+            for ob2 in m.obligations:
+                if ob2['id'] == ob['id'] and ob2['leaf'] == ob['leaf']:
+                    if ob2['kind'] == 'eq' and not is_sym(ob2['lhs']) and not is_sym(ob2['rhs']):
+                        return ob2['lhs'] != ob2['rhs']
+                    if ob2['kind'] == 'bool' and isinstance(ob2['cond'], bool):
+                        return not ob2['cond']
+            return False
+        except Exception:
+            return False
+
+    def replay_model(s, h, ob, vec, order=None):
+        r = s.replay_model0(h, ob, vec, strict=False)
+        if not r[0] and order is not None and r[1].startswith('native lhs=') and s.exact_run_fails(h, ob, vec, order):
+            r2 = s.replay_model0(h, ob, vec, strict=True)
+            if r2[0]:
+                return True, r2[1] + ' (tiny residual; the assertion also fails when the code is run on these inputs in exact rational arithmetic)'
+        return r
+
+    def replay_model0(s, h, ob, vec, strict=False):
         """Run the native build on the model; True if the same obligation fails there."""
         runs = run_native(s.binary, h.split('::')[-1], [vec])
         if not runs:
@@ -464,6 +493,9 @@ class Check:
                     if e[0] == 'ASSERT':
                         return (not e[2]), 'native assert %s' % e[2]
                     a, b = e[2][ob['leaf']], e[3][ob['leaf']]
+                    if strict:
+                        same = (a == b) or (isinstance(a, float) and isinstance(b, float) and abs(a - b) <= 1e-9 * max(abs(a), abs(b)))
+                        return (not same), 'native lhs=%r rhs=%r' % (a, b)
                     return (not close(a, b)), 'native lhs=%r rhs=%r' % (a, b)
         return False, 'assertion not reached natively'
 
@@ -574,7 +606,7 @@ class Check:
         for model in s.robust_models(ob, o, order, r['model']):
             vec = s.model_vector(model, order)
             try:
-                ok, why = s.replay_model(h, ob, vec)
+                ok, why = s.replay_model(h, ob, vec, order)
             except Inconclusive as e:
                 ok, why = False, str(e)
             if ok:
@@ -604,7 +636,7 @@ class Check:
         fn = os.path.join(d, '%s-%s-%s-%d.json' % (s.prop, base, re.sub(r'[^\w]', '_', ob['id']), ob['leaf']))
         json.dump({'property': s.prop, 'harness': base, 'assert': ob['id'], 'leaf': ob['leaf'], 'kind': ob['kind'],
                    'inputs': [{'name': nm, 'type': lt, 'value': v, 'token': leaf_tok(v)} for (nm, lt), v in zip(order, vec)],
-                   'native': why, 'replay_cmd': './check %s --replay %s' % (s.prop, fn)}, open(fn, 'w'), indent=1)
+                   'native': why, 'criterion': 'strict-relative' if 'tiny residual' in why else 'default', 'replay_cmd': './check %s --replay %s' % (s.prop, fn)}, open(fn, 'w'), indent=1)
         return fn
 
     # ---------------- differential validation of the executor
@@ -855,7 +887,11 @@ def replay_file(prop, path):
                     if e[0] == 'ASSERT':
                         failed = not e[2]
                     else:
-                        failed = not close(e[2][d['leaf']], e[3][d['leaf']])
+                        x, y = e[2][d['leaf']], e[3][d['leaf']]
+                        if d.get('criterion') == 'strict-relative':
+                            failed = not ((x == y) or (isinstance(x, float) and isinstance(y, float) and abs(x - y) <= 1e-9 * max(abs(x), abs(y))))
+                        else:
+                            failed = not close(x, y)
             if e[0] == 'PANIC' and d['kind'] == 'nopanic':
                 failed = True
         print('    => assertion %s leaf %d %s' % (d['assert'], d['leaf'], 'FAILS (violation reproduces)' if failed else 'holds'))
